@@ -1701,7 +1701,12 @@ class DistUniform(DistContinuous):
         """
         Draw a value from the Uniform distribution.
         """
-        return self._lo + (self._hi - self._lo) * self._stream.next_float()
+        u = self._stream.next_float()
+        width = self._hi - self._lo
+        if math.isinf(width):
+            # hi - lo is beyond the float range: interpolate between the bounds
+            return min(self._hi, max(self._lo, (1.0 - u) * self._lo + u * self._hi))
+        return self._lo + width * u
 
     def probability_density(self, x: float) -> float:
         """Returns the probability density value for value x."""
